@@ -1,7 +1,7 @@
 (* Correspondence glue for the Core-VRL program family (C06-C09, C13, ...):
    the model's run of the program vs what Runtime::resolve did on the implementation. *)
 From Coq Require Import List NArith ZArith Bool.
-From VRL Require Import Base.Bytes Base.Value Base.Lit Model.ValueCrud Model.Expr Model.Eval Model.EvalInst Model.Info.
+From VRL Require Import Base.Bytes Base.Value Base.Lit Model.ValueCrud Model.Expr Model.Eval Model.EvalInst Model.Info Model.CodecUtf8.
 Import ListNotations.
 
 (* equal, except that the model's opaque error-message token matches any string *)
@@ -59,7 +59,8 @@ Definition out_sim (m : outcome) (i : iout) : bool :=
   match m, i with
   | Success v, ISuccess w => vsim v w
   | Aborted a, IAborted b =>
-      match a, b with Some x, Some y => bytes_eqb x y | None, None => true | _, _ => false end
+      (* Abort::resolve keeps the message as a String made with String::from_utf8_lossy *)
+      match a, b with Some x, Some y => bytes_eqb (utf8_lossy x) y | None, None => true | _, _ => false end
   | Failed, IFailed => true
   | Panicked, IPanicked => true
   | _, _ => false
